@@ -24,8 +24,8 @@ func init() { RegisterSub("C09", "merge", RunC09) }
 type c09Col struct{ Opt, Desc, NF bool } // nullable, descending, nulls first
 
 type c09Row struct {
-	K        [2]int64
-	Null     [2]bool
+	K        [3]int64
+	Null     [3]bool
 	Inp, Seq int32
 }
 
@@ -441,8 +441,11 @@ func c09Oracle(c *c09Case, out []c09Row) (key, what string) {
 					nullInvolved = true
 				}
 			}
-			if nullInvolved && c.Path != "readers" {
-				return "nullable-key-ranges-ignore-nulls", fmt.Sprintf("output not sorted: row %d (%s) precedes row %d (%s); a null key is out of place (row-group key ranges are computed from non-null page bounds)", i-1, out[i-1].keyText(n), i, out[i].keyText(n))
+			if nullInvolved && c.Pattern == "fixed" {
+				return "nullable-key-ranges-ignore-nulls", fmt.Sprintf("output not sorted: row %d (%s) precedes row %d (%s); a null key is out of place (F12: row-group key ranges computed from non-null page bounds only)", i-1, out[i-1].keyText(n), i, out[i].keyText(n))
+			}
+			if nullInvolved {
+				return "unsorted-null-out-of-place", fmt.Sprintf("output not sorted: row %d (%s) precedes row %d (%s); a null key is out of place", i-1, out[i-1].keyText(n), i, out[i].keyText(n))
 			}
 			return "unsorted", fmt.Sprintf("output not sorted: row %d (%s) precedes row %d (%s)", i-1, out[i-1].keyText(n), i, out[i].keyText(n))
 		}
@@ -485,7 +488,7 @@ func c09Check(ctx *core.Ctx, c *c09Case, p *c09Pending) {
 			nonEmpty++
 		}
 		for _, r := range in {
-			nulls = nulls || r.Null[0] || r.Null[1]
+			nulls = nulls || r.Null[0] || r.Null[1] || r.Null[2]
 		}
 	}
 	canon := c.canon()
@@ -512,10 +515,18 @@ func c09Check(ctx *core.Ctx, c *c09Case, p *c09Pending) {
 		return map[string]any{"case": cs, "plan": kind, "output": strings.Join(o, " "), "calls": fmt.Sprint(calls[:min(len(calls), 50)])}
 	}
 	sig := fmt.Sprintf(" path=%s", c.Path)
-	// L2: the plan (segments of row groups) against the Lean mirror of overlappingRowGroups;
-	// one key column, single-page row groups (Buffers), no nulls, no dedupe wrappers
-	if p != nil && err == nil && c.Storage == "buffer" && len(c.Cols) == 1 && !nulls && !c.Dedupe && c.Path != "readers" && len(c.Inputs) > 0 {
-		req := "merge.segments " + c09Lists(c.Inputs, func(r c09Row) string {
+	// L2: the plan (segments of row groups) against the Lean mirror of rowGroupRangeOfSortedColumns +
+	// overlappingRowGroups; one key column (nullable or not), single-page row groups (Buffers), no
+	// dedupe wrappers
+	if p != nil && err == nil && c.Storage == "buffer" && len(c.Cols) == 1 && !c.Dedupe && c.Path != "readers" && len(c.Inputs) > 0 {
+		nf := "0"
+		if c.Cols[0].NF {
+			nf = "1"
+		}
+		req := "merge.segments " + nf + " " + c09Lists(c.Inputs, func(r c09Row) string {
+			if r.Null[0] {
+				return "n"
+			}
 			if c.Cols[0].Desc {
 				return strconv.FormatInt(-r.K[0], 10)
 			}
@@ -523,6 +534,7 @@ func c09Check(ctx *core.Ctx, c *c09Case, p *c09Pending) {
 		})
 		want := "ok " + plan
 		ctx.Hist("l2-plan-segments", c09Bucket(strings.Count(plan, ",")+1))
+		ctx.Hist("l2-plan-nulls", strconv.FormatBool(nulls))
 		p.reqs = append(p.reqs, req)
 		p.pend = append(p.pend, func(ans string) {
 			if ans != want {
@@ -762,6 +774,81 @@ func c09GenRefineCase(r *rand.Rand) *c09Case {
 	return c
 }
 
+// large inputs sorted by a compound key (2 or 3 columns) in which many rows share the first key
+// column, within and across row groups, over several pages: the page-granular cuts of the refinement
+// planner (first sorting column only) meet row-group bounds that are decided by the later columns
+func c09GenCompoundRefineCase(r *rand.Rand) *c09Case {
+	c := &c09Case{Pattern: "refine-compound-" + []string{"touching", "staggered", "nested"}[r.Intn(3)]}
+	ncols := 2 + r.Intn(2)
+	for j := 0; j < ncols; j++ {
+		col := c09Col{Desc: r.Intn(4) == 0}
+		if r.Intn(5) == 0 {
+			col.Opt, col.NF = true, r.Intn(2) == 0
+		}
+		c.Cols = append(c.Cols, col)
+	}
+	c.MCols = []int{0, ncols, ncols}[r.Intn(3)]
+	k := 2 + r.Intn(2)
+	c.Storage = "file"
+	c.PageBuf = []int{64, 128, 256, 1024}[r.Intn(4)]
+	c.Batches = c09GenBatches(r)
+	c.Dedupe = r.Intn(10) == 0
+	c.Path = []string{"rows", "rows", "write", "copyrows"}[r.Intn(4)]
+	min := parquet.VerifMinStreamedRegionRows
+	width := int64(2 + r.Intn(6))  // distinct first-column values per row group
+	bdom := int64(50 + r.Intn(3000)) // domain of the second column
+	inputs := make([][]c09Row, k)
+	for i := 0; i < k; i++ {
+		n := min + min/2 + r.Intn(2*min)
+		var lo, hi int64
+		switch c.Pattern {
+		case "refine-compound-touching": // the last first-column value of one group is the first of the next
+			lo = int64(i) * width
+			hi = lo + width
+		case "refine-compound-staggered":
+			lo = int64(i) * (width - 1)
+			hi = lo + width
+		default:
+			lo = int64(i)
+			hi = lo + width*int64(k-i)
+		}
+		rows := make([]c09Row, n)
+		for j := range rows {
+			var row c09Row
+			for cidx, col := range c.Cols {
+				if col.Opt && r.Intn(60) == 0 {
+					row.Null[cidx] = true
+					continue
+				}
+				switch cidx {
+				case 0:
+					row.K[0] = lo + r.Int63n(hi-lo+1)
+				case 1:
+					row.K[1] = r.Int63n(bdom)
+				default:
+					row.K[2] = r.Int63n(3)
+				}
+			}
+			rows[j] = row
+		}
+		sort.SliceStable(rows, func(a, b int) bool { return c09Cmp(c.Cols, len(c.Cols), rows[a], rows[b]) < 0 })
+		for j := range rows {
+			rows[j].Inp, rows[j].Seq = int32(i), int32(j)
+		}
+		inputs[i] = rows
+	}
+	if r.Intn(2) == 0 { // the planner sorts the row groups by their lower bound
+		inputs[0], inputs[k-1] = inputs[k-1], inputs[0]
+		for i := range inputs {
+			for j := range inputs[i] {
+				inputs[i][j].Inp = int32(i)
+			}
+		}
+	}
+	c.Inputs = inputs
+	return c
+}
+
 // ---------------------------------------------------------------- L2: the Lean mirror
 
 type c09L2Case struct {
@@ -807,7 +894,7 @@ func c09L2Run(c *c09L2Case) (req, want string, rows []c09Row, err error) {
 	for i, ks := range c.keys {
 		rs := make([]parquet.Row, len(ks))
 		for j, k := range ks {
-			rs[j] = c09ToRow(c09L2Cols, c09Row{K: [2]int64{k}, Inp: int32(i), Seq: int32(j)})
+			rs[j] = c09ToRow(c09L2Cols, c09Row{K: [3]int64{k}, Inp: int32(i), Seq: int32(j)})
 		}
 		var sizes []int
 		if i < len(c.refills) {
@@ -908,7 +995,7 @@ func c09L2Check(ctx *core.Ctx, c *c09L2Case, p *c09Pending) {
 	for i, ks := range c.keys {
 		in := make([]c09Row, len(ks))
 		for j, k := range ks {
-			in[j] = c09Row{K: [2]int64{k}, Inp: int32(i), Seq: int32(j)}
+			in[j] = c09Row{K: [3]int64{k}, Inp: int32(i), Seq: int32(j)}
 		}
 		oc.Inputs = append(oc.Inputs, in)
 	}
@@ -1008,9 +1095,9 @@ func c09RunLengthChecks(ctx *core.Ctx, r *rand.Rand, d *drv.Driver, p *c09Pendin
 		mx := -r.Intn(2)
 		window := make([]parquet.Row, ln)
 		for j, k := range ks {
-			window[j] = c09ToRow(c09L2Cols, c09Row{K: [2]int64{k}})
+			window[j] = c09ToRow(c09L2Cols, c09Row{K: [3]int64{k}})
 		}
-		got := parquet.VerifRunLength(window, c09ToRow(c09L2Cols, c09Row{K: [2]int64{bound}}), c09L2Compare, mx)
+		got := parquet.VerifRunLength(window, c09ToRow(c09L2Cols, c09Row{K: [3]int64{bound}}), c09L2Compare, mx)
 		// L1 (runLength_spec): the length of the maximal prefix with compare <= max
 		want := 0
 		for want < ln && ((mx == 0 && ks[want] <= bound) || (mx == -1 && ks[want] < bound)) {
@@ -1050,7 +1137,7 @@ func c09DedupeChecks(ctx *core.Ctx, r *rand.Rand, d *drv.Driver, p *c09Pending, 
 		idx := 0
 		for bi, b := range batches {
 			for j, k := range b {
-				rows[idx] = c09ToRow(c09L2Cols, c09Row{K: [2]int64{k}, Inp: int32(bi), Seq: int32(j)})
+				rows[idx] = c09ToRow(c09L2Cols, c09Row{K: [3]int64{k}, Inp: int32(bi), Seq: int32(j)})
 				idx++
 			}
 		}
@@ -1109,12 +1196,12 @@ func c09DedupeChecks(ctx *core.Ctx, r *rand.Rand, d *drv.Driver, p *c09Pending, 
 // ---------------------------------------------------------------- entry point
 
 func RunC09(ctx *core.Ctx) {
-	ctx.SetRule("k in 0..9 sorted inputs (empty, disjoint, touching, nested, identical, staggered, random key ranges; duplicates within and across inputs; asc/desc; nullable keys nulls first/last; one or two key columns, merge by a prefix or by all) as sorted Buffers and as files (PageBufferSize 1..1MiB, with page index) x read batch sizes 1..300 x MergeRowGroups.Rows / MergeRowReaders / Writer.WriteRowGroup / CopyRows, with and without DropDuplicatedRows; chunked-source MergeRowReaders runs compared call by call with the Lean mirror; runLength and DedupeRowReader against mirror and spec; exhaustive small scope. Distinct by canonical case text, non-trivial = at least two non-empty inputs (merges) / at least two rows or batches (runLength, dedupe)")
+	ctx.SetRule("k in 0..9 sorted inputs (empty, disjoint, touching, nested, identical, staggered, random key ranges; duplicates within and across inputs; asc/desc; nullable keys nulls first/last; one to three key columns, merge by a prefix or by all; large compound-key files whose first key column is shared by many rows across row-group and page boundaries) as sorted Buffers and as files (PageBufferSize 1..1MiB, with page index) x read batch sizes 1..300 x MergeRowGroups.Rows / MergeRowReaders / Writer.WriteRowGroup / CopyRows, with and without DropDuplicatedRows; chunked-source MergeRowReaders runs compared call by call with the Lean mirror; runLength and DedupeRowReader against mirror and spec; exhaustive small scope. Distinct by canonical case text, non-trivial = at least two non-empty inputs (merges) / at least two rows or batches (runLength, dedupe)")
 
 	// F12 as a fixed corpus-like case so that it is reported deterministically
 	fixed := []*c09Case{
 		{Cols: []c09Col{{Opt: true}}, MCols: 1, Storage: "buffer", PageBuf: 4096, Batches: []int{10}, Path: "rows", Pattern: "fixed",
-			Inputs: [][]c09Row{{{K: [2]int64{10}}, {Null: [2]bool{true}, Seq: 1}}, {{K: [2]int64{17}, Inp: 1}, {K: [2]int64{17}, Inp: 1, Seq: 1}, {K: [2]int64{18}, Inp: 1, Seq: 2}}}},
+			Inputs: [][]c09Row{{{K: [3]int64{10}}, {Null: [3]bool{true}, Seq: 1}}, {{K: [3]int64{17}, Inp: 1}, {K: [3]int64{17}, Inp: 1, Seq: 1}, {K: [3]int64{18}, Inp: 1, Seq: 2}}}},
 	}
 	for _, c := range fixed {
 		c09Check(ctx, c, nil)
@@ -1124,6 +1211,7 @@ func RunC09(ctx *core.Ctx) {
 	var wg sync.WaitGroup
 	nL1 := ctx.Scale(4000, 100000)
 	nRefine := ctx.Scale(40, 600)
+	nCompound := ctx.Scale(70, 1000)
 	nL2 := ctx.Scale(6000, 150000)
 	for w := 0; w < workers; w++ {
 		wg.Add(1)
@@ -1142,6 +1230,9 @@ func RunC09(ctx *core.Ctx) {
 			}
 			for i := w; i < nRefine; i += workers {
 				c09Check(ctx, c09GenRefineCase(r), p)
+			}
+			for i := w; i < nCompound; i += workers {
+				c09Check(ctx, c09GenCompoundRefineCase(r), p)
 			}
 			p.flush(ctx, d, true)
 			r2 := ctx.Rand(fmt.Sprintf("c09-l2-%d", w))
@@ -1200,7 +1291,7 @@ func c09Exhaustive(ctx *core.Ctx, workers int) {
 						for i, ks := range keys {
 							in := make([]c09Row, len(ks))
 							for s, k := range ks {
-								in[s] = c09Row{K: [2]int64{k}, Inp: int32(i), Seq: int32(s)}
+								in[s] = c09Row{K: [3]int64{k}, Inp: int32(i), Seq: int32(s)}
 							}
 							oc.Inputs = append(oc.Inputs, in)
 						}
